@@ -731,6 +731,120 @@ void pool_pairs(std::vector<PoolVal> &pool) {
   }
 }
 
+// ---- C16 (v): copy forms and normalisation before a later operation ------------
+// For every ordered pair (A, B) of a pool of reachable values and every way to build a value V from it
+// (A itself, A | B, the fresh - not yet normalised - widening result A || B), every "preparation"
+// (none, copy construction, copy assignment into a top / into a non-trivial object, normalize, minimize,
+// query_all, and a copy that is mutated afterwards) followed by every later operation of a small set must
+// give a result with the same meaning as the same later operation applied to V itself.
+std::vector<vh::HOp> copyforms_alphabet(unsigned caps) {
+  static const char *names[] = {"assume(x<=y)", "assume(y<=1)", "assume(x<=0)", "assume(x>=0)", "assume(x+y<=1)", "assume(y<=0)",
+                                "assume(y>=-1)", "x:=1", "y:=2", "forget(y)"};
+  std::vector<vh::HOp> all = vh::build_alphabet(caps, true), r;
+  for (auto n : names)
+    for (auto &h : all)
+      if (h.op.name == n) { r.push_back(h); break; }
+  return r;
+}
+std::string solbits(const DomBox &a) {
+  Queries q = observe(a, false);
+  if (q.is_bottom) return "bottom";
+  std::string bits;
+  std::vector<int> vs = tracked_vars(false);
+  for (auto &s : UNIVERSE) {
+    bool in = true;
+    for (auto &c : q.csts)
+      if (!c.big && !c.holds(s.v.data())) { in = false; break; }
+    for (size_t i = 0; in && i < vs.size(); i++)
+      if (!q.at[i].contains(s.v[vs[i]])) in = false;
+    bits += in ? '1' : '0';
+  }
+  return bits;
+}
+void copyforms(std::vector<PoolVal> &pool) {
+  static const char *build_names[] = {"A", "A|B", "A||B"};
+  static const char *prep_names[] = {"none", "copy-construct", "copy-assign-into-top", "copy-assign-into-B", "normalize", "minimize", "query_all",
+                                     "copy-construct,mutate-copy,use-source", "copy-assign,mutate-copy,use-source", "copy-assign-into-fresh-widening-result"};
+  static const char *later_names[] = {"identity", "forget(x)", "forget(y)", "assume(x<=0)", "x:=y", "join B", "meet B", "widen B"};
+  const int NB = 3, NP = 10, NL = 8;
+  for (size_t i = 0; i < pool.size(); i++) {
+    if (!vp::mine(i)) continue;
+    for (size_t j = 0; j < pool.size(); j++) {
+      if (vp::past_deadline()) { vp::incomplete(DOMNAME + " copy forms"); return; }
+      PoolVal &a = pool[i], &b = pool[j];
+      if (a.w_used || b.w_used) continue;
+      std::string spec = "c|" + DOMNAME + "|" + CFGNAME + "|" + std::to_string(i) + "|" + std::to_string(j);
+      vp::set_case(spec);
+      std::string ctx = "A: " + hist_str(a.path) + " B: " + hist_str(b.path);
+      for (int bk = 0; bk < NB; bk++) {
+        if (bk == 0 && j != 0) continue; // A alone does not depend on B except through the later operation; one B suffices... (B = pool[0])
+        auto build = [&]() {
+          std::unique_ptr<DomBox> v = a.box->clone();
+          if (bk) { Op o; o.kind = bk == 1 ? O_JOIN : O_WIDEN; v->apply(o, b.box.get()); n_ops++; }
+          return v;
+        };
+        auto later = [&](DomBox &v, int l) {
+          Op o;
+          switch (l) {
+          case 0: return;
+          case 1: o.kind = O_FORGET; o.v0 = VX; break;
+          case 2: o.kind = O_FORGET; o.v0 = VY; break;
+          case 3: o.kind = O_ASSUME; o.c = cst({{1, VX}}, 0, C_LEQ); break;
+          case 4: o.kind = O_ASSIGN; o.v0 = VX; o.e = lin({{1, VY}}, 0); break;
+          case 5: o.kind = O_JOIN; break;
+          case 6: o.kind = O_MEET; break;
+          case 7: o.kind = O_WIDEN; break;
+          }
+          v.apply(o, l >= 5 ? b.box.get() : nullptr);
+          n_ops++;
+        };
+        try {
+          std::string ref[NL];
+          for (int l = 0; l < NL; l++) {
+            std::unique_ptr<DomBox> v = build();
+            later(*v, l);
+            ref[l] = solbits(*v);
+          }
+          for (int p = 1; p < NP; p++)
+            for (int l = 0; l < NL; l++) {
+              // normalisation legitimately changes the (syntactic) left operand of a widening: not compared
+              if (l == 7 && (p == 4 || p == 5 || p == 6)) continue;
+              std::unique_ptr<DomBox> v = build(), c;
+              DomBox *use = v.get();
+              Op o;
+              switch (p) {
+              case 1: c = v->clone(); use = c.get(); break;
+              case 2: c = make_top(); o.kind = O_COPY_FROM; c->apply(o, v.get()); use = c.get(); break;
+              case 3: c = b.box->clone(); o.kind = O_COPY_FROM; c->apply(o, v.get()); use = c.get(); break;
+              case 4: o.kind = O_NORMALIZE; v->apply(o, nullptr); break;
+              case 5: o.kind = O_MINIMIZE; v->apply(o, nullptr); break;
+              case 6: o.kind = O_QUERY_ALL; v->apply(o, nullptr); break;
+              case 7: c = v->clone(); { Op f; f.kind = O_FORGET; f.v0 = VY; c->apply(f, nullptr); Op t; t.kind = O_SET_TOP; c->apply(t, nullptr); } break;
+              case 8: c = make_top(); o.kind = O_COPY_FROM; c->apply(o, v.get()); { Op f; f.kind = O_FORGET; f.v0 = VX; c->apply(f, nullptr); Op t; t.kind = O_SET_BOTTOM; c->apply(t, nullptr); } break;
+              case 9: c = b.box->clone(); { Op w; w.kind = O_WIDEN; c->apply(w, a.box.get()); } o.kind = O_COPY_FROM; c->apply(o, v.get()); use = c.get(); break;
+              }
+              n_ops++;
+              later(*use, l);
+              n_nodes++;
+              std::string got = solbits(*use);
+              if (got != ref[l]) {
+                std::unique_ptr<DomBox> r0 = build();
+                later(*r0, l);
+                vp::viol(DOMNAME + ":C16:copy-or-normalisation-changes-later-result:" + prep_names[p], spec,
+                         "[" + DOMNAME + " " + CFGNAME + "] " + ctx + " V = " + build_names[bk] + " = " + build()->print() + "; " + later_names[l] + " on V gives " + r0->print() +
+                             " but after " + prep_names[p] + " it gives " + use->print());
+                goto next_pair;
+              }
+            }
+        } catch (std::runtime_error &e) {
+          if (!is_unsupported("copyforms", e.what())) vp::viol(DOMNAME + ":C16:abort", spec, "[" + DOMNAME + " " + CFGNAME + "] " + ctx + " " + e.what());
+        }
+      }
+    next_pair:;
+    }
+  }
+}
+
 } // namespace
 
 int main(int argc, char **argv) {
@@ -825,6 +939,17 @@ int main(int argc, char **argv) {
       vp::args().nslices = (unsigned)P.size();
       vp::args().slice = (unsigned)i;
       pool_pairs(P);
+    } else if (f[0] == "c") {
+      ALPHA = copyforms_alphabet(DOM->caps);
+      FLAVOR = "direct";
+      Node n = initial_node();
+      std::vector<PoolVal> pool;
+      std::set<std::string> seen;
+      std::vector<int> path;
+      collect_pool(n, 0, th ? 4 : 3, path, pool, seen, 100000);
+      vp::args().nslices = (unsigned)pool.size();
+      vp::args().slice = (unsigned)atoi(f[3].c_str());
+      copyforms(pool);
     }
     vp::finish();
     return 0;
@@ -895,6 +1020,21 @@ int main(int argc, char **argv) {
         if (&cfg != &cfgs[0]) continue; // the wrappers do not depend on the domain parameters
         ALPHA = build_alphabet(e.caps, true);
         linear_all(th ? 6 : 5);
+      } else if (mode == "copyforms") {
+        if (&cfg != &cfgs[0] && e.name != "split_dbm" && e.name != "split_oct" && e.name != "sparse_dbm") continue;
+        // quick tier: the domains that own a lazily normalised or shared representation, and one wrapper of each kind around them
+        static const char *quick_doms[] = {"split_dbm", "split_oct", "sparse_dbm", "term_int", "term_sdbm", "intervals", "dis_intervals", "powerset_int",
+                                           "packing_sdbm", "rgn_sdbm", "aa_sdbm", "bool_sparse_dbm"};
+        if (!th && std::find(std::begin(quick_doms), std::end(quick_doms), e.name) == std::end(quick_doms)) continue;
+        ALPHA = copyforms_alphabet(e.caps);
+        FLAVOR = "direct";
+        Node n = initial_node();
+        std::vector<PoolVal> pool;
+        std::set<std::string> seen;
+        std::vector<int> path;
+        collect_pool(n, 0, th ? 4 : 3, path, pool, seen, 100000);
+        vp::statmax("copyforms_pool." + DOMNAME, (long long)pool.size());
+        copyforms(pool);
       } else if (mode == "pairs") {
         ALPHA = build_alphabet(e.caps, false);
         FLAVOR = "direct";
